@@ -485,7 +485,7 @@ proof fn lemma_flat_push(ws: Seq<Win>, w: Win)
     assert(ws.push(w).drop_last() =~= ws);
 }
 proof fn lemma_sorted_concat(a: Seq<Value>, b: Seq<Value>, lo: int, mid: int, hi: int)
-    requires sorted_in(a, lo, mid), sorted_in(b, mid, hi), mid <= hi,
+    requires sorted_in(a, lo, mid), sorted_in(b, mid, hi), lo <= mid <= hi,
     ensures sorted_in(a + b, lo, hi),
 {
     let c = a + b;
@@ -508,60 +508,71 @@ proof fn lemma_total_len_suffix(pre: Seq<Seq<Result<Value, MergeError>>>, ks: Se
         assert(next_pends(pre, ks).last() == pre.last().subrange(ks.last(), pre.last().len() as int));
     }
 }
-/// one more window: all state predicates move from (ws, cs) to (ws.push(w), cs + DATA_SIZE); the held
-/// back value (if any) ends at or before the new window's start, so it goes in front of the new runs
-proof fn lemma_window_step(h: Hist, lv: Option<Value>, w: Win, cur: Seq<Seq<Result<Value, MergeError>>>, post: Seq<Seq<Result<Value, MergeError>>>)
+/// one more window, part 1: the output stream.  The held back value (if any) is the last value of the
+/// stream so far, so it ends at or before the new window's start and goes in front of the new runs.
+proof fn lemma_step_stream(h: Hist, lv: Option<Value>, w: Win)
     requires
-        conserved(h, opt_v(lv)), stream_sorted(h.wins, w.cs), windows_ok(h.wins), chain_ok(h.wins, w.cs, cur),
-        inputs_ok(cur, w.cs, h.limit),
-        win_ok(w), w.pre == cur, post == next_pends(cur, w.ks), all_sec_ok(post, w.cs + DATA_SIZE as int),
+        conserved(h, opt_v(lv)), stream_sorted(h.wins, w.cs),
+        0 <= w.cs, 0 <= w.mdl <= DATA_SIZE,
         sorted_in(w.out, w.cs, w.cs + w.mdl),
     ensures
-        ({
-            let h2 = Hist { wins: h.wins.push(w), emitted: h.emitted, limit: h.limit };
-            &&& conserved(h2, opt_v(lv) + w.out)
-            &&& stream_sorted(h2.wins, w.cs + DATA_SIZE as int)
-            &&& windows_ok(h2.wins)
-            &&& chain_ok(h2.wins, w.cs + DATA_SIZE as int, post)
-            &&& inputs_ok(post, w.cs + DATA_SIZE as int, h.limit)
-            &&& sorted_in(opt_v(lv) + w.out, 0, w.cs + DATA_SIZE as int)
-            &&& (lv is Some ==> lv->Some_0.start < lv->Some_0.end && lv->Some_0.end <= w.cs)
-        }),
+        conserved(Hist { wins: h.wins.push(w), emitted: h.emitted, limit: h.limit }, opt_v(lv) + w.out),
+        stream_sorted(h.wins.push(w), w.cs + DATA_SIZE as int),
+        queue_sorted(w.out),
+        lv is Some ==> lv->Some_0.start < lv->Some_0.end && lv->Some_0.end <= w.cs,
+        w.out.len() > 0 ==> w.cs <= w.out[0].start,
 {
-    reveal(stream_sorted); reveal(windows_ok); reveal(chain_ok); reveal(inputs_ok);
-    let ws2 = h.wins.push(w);
+    reveal(stream_sorted);
     lemma_flat_push(h.wins, w);
     lemma_sorted_concat(flat(h.wins), w.out, 0, w.cs, w.cs + DATA_SIZE as int);
     assert(h.emitted + (opt_v(lv) + w.out) =~= (h.emitted + opt_v(lv)) + w.out);
-    assert forall|i: int| 0 <= i < ws2.len() implies win_ok(#[trigger] ws2[i]) by {
-        if i < h.wins.len() { assert(ws2[i] == h.wins[i]); }
-    }
-    assert forall|i: int| 0 <= i < ws2.len() implies (#[trigger] ws2[i]).cs + (ws2.len() - i) * (DATA_SIZE as int) == w.cs + DATA_SIZE as int by {
-        if i < h.wins.len() { assert(ws2[i] == h.wins[i]); }
-    }
-    assert forall|i: int| 0 <= i < ws2.len() - 1 implies (#[trigger] ws2[i + 1]).pre == next_pends(ws2[i].pre, ws2[i].ks) by {
-        assert(ws2[i] == h.wins[i]);
-        if i + 1 < h.wins.len() { assert(ws2[i + 1] == h.wins[i + 1]); } else { assert(h.wins[i] == h.wins.last()); }
-    }
-    // inputs: suffixes keep the end bound and do not grow
-    assert forall|i: int, j: int| 0 <= i < post.len() && 0 <= j < post[i].len() && (#[trigger] post[i][j]) is Ok implies post[i][j]->Ok_0.end <= h.limit by {
-        assert(post[i][j] == cur[i][w.ks[i] + j]);
-    }
-    lemma_total_len_suffix(cur, w.ks);
-    // the held-back value is the last element of the stream so far
     let f = flat(h.wins);
-    let q = opt_v(lv) + w.out;
     if lv is Some {
         assert(f[f.len() - 1] == (h.emitted + opt_v(lv))[f.len() - 1]);
         assert(f[f.len() - 1] == lv->Some_0);
     }
-    let f2 = flat(ws2);
-    assert forall|i: int| 0 <= i < q.len() implies 0 <= (#[trigger] q[i]).start < q[i].end <= w.cs + DATA_SIZE as int by {
-        assert(q[i] == f2[h.emitted.len() + i]);
+}
+/// part 2: the window records
+proof fn lemma_step_windows(ws: Seq<Win>, w: Win)
+    requires windows_ok(ws), win_ok(w),
+    ensures windows_ok(ws.push(w)),
+{
+    reveal(windows_ok);
+    let ws2 = ws.push(w);
+    assert forall|i: int| 0 <= i < ws2.len() implies win_ok(#[trigger] ws2[i]) by {
+        if i < ws.len() { assert(ws2[i] == ws[i]); }
     }
-    assert forall|i: int, j: int| 0 <= i < j < q.len() implies (#[trigger] q[i]).end <= (#[trigger] q[j]).start by {
-        assert(q[i] == f2[h.emitted.len() + i]); assert(q[j] == f2[h.emitted.len() + j]);
+}
+/// part 3: the chain of windows
+proof fn lemma_step_chain(ws: Seq<Win>, w: Win, cur: Seq<Seq<Result<Value, MergeError>>>, post: Seq<Seq<Result<Value, MergeError>>>)
+    requires chain_ok(ws, w.cs, cur), w.pre == cur, post == next_pends(cur, w.ks),
+    ensures chain_ok(ws.push(w), w.cs + DATA_SIZE as int, post),
+{
+    reveal(chain_ok);
+    let ws2 = ws.push(w);
+    assert forall|i: int| 0 <= i < ws2.len() implies (#[trigger] ws2[i]).cs + (ws2.len() - i) * (DATA_SIZE as int) == w.cs + DATA_SIZE as int by {
+        if i < ws.len() { assert(ws2[i] == ws[i]); }
     }
+    assert forall|i: int| 0 <= i < ws2.len() - 1 implies (#[trigger] ws2[i + 1]).pre == next_pends(ws2[i].pre, ws2[i].ks) by {
+        assert(ws2[i] == ws[i]);
+        if i + 1 < ws.len() { assert(ws2[i + 1] == ws[i + 1]); } else { assert(ws[i] == ws.last()); }
+    }
+}
+/// part 4: the inputs still pending keep their bounds
+proof fn lemma_step_inputs(cur: Seq<Seq<Result<Value, MergeError>>>, ks: Seq<int>, cs: int, limit: int, post: Seq<Seq<Result<Value, MergeError>>>)
+    requires
+        inputs_ok(cur, cs, limit), stops_ok(cur, ks, cs + DATA_SIZE as int),
+        post == next_pends(cur, ks), all_sec_ok(post, cs + DATA_SIZE as int),
+    ensures inputs_ok(post, cs + DATA_SIZE as int, limit),
+{
+    reveal(inputs_ok);
+    assert forall|i: int| 0 <= i < cur.len() implies 0 <= #[trigger] ks[i] <= cur[i].len() by {
+        assert(is_stop(cur[i], ks[i], cs + DATA_SIZE as int));
+    }
+    assert forall|i: int, j: int| 0 <= i < post.len() && 0 <= j < post[i].len() && (#[trigger] post[i][j]) is Ok implies post[i][j]->Ok_0.end <= limit by {
+        assert(post[i][j] == cur[i][ks[i] + j]);
+    }
+    lemma_total_len_suffix(cur, ks);
 }
 /// past the last input base nothing can be taken: the window sees no value (termination of the window loop)
 proof fn lemma_past_limit(ps: Seq<Seq<Result<Value, MergeError>>>, ks: Seq<int>, cs: int, limit: int)
@@ -619,3 +630,9 @@ spec fn queue_sorted(o: Seq<Value>) -> bool {
     &&& forall|i: int| 0 <= i < o.len() ==> (#[trigger] o[i]).start < o[i].end
     &&& forall|i: int, j: int| 0 <= i < j < o.len() ==> (#[trigger] o[i]).end <= (#[trigger] o[j]).start
 }
+
+/// max_sections handed to the encoder stays far below usize::MAX / 2
+proof fn lemma_total_len_suffix_bound(pre: Seq<Seq<Result<Value, MergeError>>>, ms: int)
+    requires total_len(pre) <= MAXHALF, ms <= total_len(pre),
+    ensures ms <= usize::MAX / 2,
+{ }
